@@ -406,4 +406,115 @@ theorem exact_holds (keys : List Bytes) : (exact keys).holds keys := by
   intro k hk
   simp [exact, hk]
 
+
+/-! ### lemmas for the repaired probe (patch c03-A): the words of a needle -/
+
+theorem mem_foldl_insertKey (l acc : List Bytes) (x : Bytes) : x ∈ l.foldl insertKey acc ↔ x ∈ acc ∨ x ∈ l := by
+  induction l generalizing acc with
+  | nil => simp
+  | cons a r ih =>
+    simp only [List.foldl_cons, ih, mem_insertKey, List.mem_cons]
+    constructor
+    · rintro ((h | h) | h)
+      · exact Or.inl h
+      · exact Or.inr (Or.inl h)
+      · exact Or.inr (Or.inr h)
+    · rintro (h | h | h)
+      · exact Or.inl (Or.inl h)
+      · exact Or.inl (Or.inr h)
+      · exact Or.inr h
+
+theorem mem_wordsOfKeys (ks : List Bytes) (x : Bytes) :
+    x ∈ wordsOfKeys ks ↔ ∃ k ∈ ks, x ∈ splitSpace k ∧ x ≠ [] := by
+  unfold wordsOfKeys
+  rw [mem_foldl_insertKey]
+  simp only [List.not_mem_nil, false_or, List.mem_flatMap, List.mem_filter]
+  constructor
+  · rintro ⟨k, hk, hx, hne⟩
+    exact ⟨k, hk, hx, by cases x <;> simp_all⟩
+  · rintro ⟨k, hk, hx, hne⟩
+    exact ⟨k, hk, hx, by cases x <;> simp_all⟩
+
+theorem splitSpace_toLower (s : Bytes) : splitSpace (toLower s) = (splitSpace s).map toLower := by
+  induction s with
+  | nil => simp [splitSpace, toLower]
+  | cons b r ih =>
+    have ih' : splitSpace (List.map lowerB r) = (splitSpace r).map toLower := by simpa [toLower] using ih
+    by_cases hb : b = 32
+    · subst hb
+      have : lowerB 32 = 32 := by decide
+      simp [splitSpace, toLower, this, ih']
+    · have hl : lowerB b ≠ 32 := fun e => hb ((lowerB_eq_32 b).1 e)
+      simp only [toLower, List.map_cons, splitSpace, hl, hb, if_false, ih']
+      cases hs : splitSpace r with
+      | nil => exact absurd hs (splitSpace_ne_nil r)
+      | cons s ss => simp [toLower]
+
+theorem mem_of_mem_piece (v s : Bytes) (x : Nat) (hs : s ∈ splitSpace v) (hx : x ∈ s) : x ∈ v := by
+  induction v generalizing s with
+  | nil => simp [splitSpace] at hs; subst hs; simp at hx
+  | cons b r ih =>
+    by_cases hb : b = 32
+    · simp only [splitSpace, hb, if_true, List.mem_cons] at hs
+      rcases hs with rfl | hs
+      · simp at hx
+      · exact List.mem_cons_of_mem _ (ih s hs hx)
+    · simp only [splitSpace, hb, if_false] at hs
+      cases hsr : splitSpace r with
+      | nil => exact absurd hsr (splitSpace_ne_nil r)
+      | cons s0 ss =>
+        rw [hsr] at hs
+        simp only [List.mem_cons] at hs
+        rcases hs with rfl | hs
+        · simp only [List.mem_cons] at hx
+          rcases hx with rfl | hx
+          · simp
+          · exact List.mem_cons_of_mem _ (ih s0 (by rw [hsr]; simp) hx)
+        · exact List.mem_cons_of_mem _ (ih s (by rw [hsr]; simp [hs]) hx)
+
+theorem hasUpper_piece (v s : Bytes) (hs : s ∈ splitSpace v) (hu : hasUpper v = false) : hasUpper s = false := by
+  simp only [hasUpper, List.any_eq_false] at hu ⊢
+  intro x hx
+  exact hu x (mem_of_mem_piece v s x hs hx)
+
+/-- the pieces of a slice delimited by spaces (or the ends) are pieces of the whole -/
+theorem pieces_of_decomp (pre t post : Bytes)
+    (hpre : pre = [] ∨ ∃ p, pre = p ++ [32]) (hpost : post = [] ∨ ∃ q, post = 32 :: q) :
+    ∀ s ∈ splitSpace t, s ∈ splitSpace (pre ++ t ++ post) := by
+  intro s hs
+  rcases hpre with rfl | ⟨p, rfl⟩ <;> rcases hpost with rfl | ⟨q, rfl⟩
+  · simpa using hs
+  · simp [splitSpace_append, hs]
+  · have : p ++ [32] ++ t ++ [] = p ++ 32 :: t := by simp
+    rw [this, splitSpace_append]; simp [hs]
+  · have : p ++ [32] ++ t ++ 32 :: q = p ++ 32 :: (t ++ 32 :: q) := by simp
+    rw [this, splitSpace_append, splitSpace_append]; simp [hs]
+
+/-- every non-empty word of a needle that `IsSubWordPresent` finds in the value is a key the writer added — for
+needles of any number of words (case-insensitive search: for a needle without upper-case bytes) -/
+theorem pieces_added (ci : Bool) (v n : Bytes) (hlow : ci = true → hasUpper n = false)
+    (h : subWord ci v n = true) : ∀ w ∈ splitSpace n, w ≠ [] → w ∈ addedKeys v := by
+  intro w hw hne
+  obtain ⟨pre, t, post, hv, heq, hpre, hpost⟩ := subWord_decomp ci v n h
+  obtain ⟨_, hcs, hcis⟩ := bytesEq_spec ci t n heq
+  have hpieces := pieces_of_decomp pre t post hpre hpost
+  cases ci with
+  | false =>
+    have : t = n := hcs rfl
+    subst this
+    rw [hv]
+    exact mem_addedKeys_seg _ w (hpieces w hw) hne
+  | true =>
+    have hn : toLower n = n := toLower_of_noUpper n (hlow rfl)
+    have htl : toLower t = n := by rw [hcis rfl, hn]
+    rw [← htl, splitSpace_toLower] at hw
+    obtain ⟨s, hs, rfl⟩ := List.mem_map.1 hw
+    have hsne : s ≠ [] := by intro e; subst e; simp [toLower] at hne
+    have hsv : s ∈ splitSpace v := by rw [hv]; exact hpieces s hs
+    by_cases hu : hasUpper v = true
+    · exact mem_addedKeys_lower_seg v s hsv hsne hu
+    · have hu' : hasUpper v = false := by simpa using hu
+      rw [toLower_of_noUpper s (hasUpper_piece v s hsv hu')]
+      exact mem_addedKeys_seg v s hsv hsne
+
 end SigModel.Bloom
